@@ -267,6 +267,12 @@ impl Recv {
                 .push_back(&mut self.buffer, Event::Headers(message));
             stream.notify_recv();
 
+            // If the receive half just closed (END_STREAM), no further
+            // PUSH_PROMISE can arrive: wake a task waiting for one.
+            if stream.state.is_recv_end_stream() {
+                stream.notify_push();
+            }
+
             // Only servers can receive a headers frame that initiates the stream.
             // This is verified in `Streams` before calling this function.
             if counts.peer().is_server() {
@@ -436,6 +442,8 @@ impl Recv {
             .pending_recv
             .push_back(&mut self.buffer, Event::Trailers(trailers));
         stream.notify_recv();
+        // The receive half is closed now: wake a task waiting for push promises.
+        stream.notify_push();
 
         Ok(())
     }
@@ -778,6 +786,12 @@ impl Recv {
         // Push the frame onto the recv buffer
         stream.pending_recv.push_back(&mut self.buffer, event);
         stream.notify_recv();
+
+        // If the receive half just closed (END_STREAM), no further
+        // PUSH_PROMISE can arrive: wake a task waiting for one.
+        if stream.state.is_recv_end_stream() {
+            stream.notify_push();
+        }
 
         Ok(())
     }
